@@ -4,11 +4,45 @@ package vgirpc
 // that is not an RpcError value or a typed framework error is a RuntimeError.
 
 import (
+	"bytes"
 	"encoding/json"
 	"errors"
 	"fmt"
 	"testing"
+
+	"github.com/apache/arrow-go/v18/arrow"
+	"github.com/apache/arrow-go/v18/arrow/ipc"
 )
+
+// c05Kind writes err as an exception batch and reads back its vgi_rpc.error_kind key.
+func c05Kind(t *testing.T, err error) (kind string, present bool, excType string) {
+	schema := arrow.NewSchema(nil, nil)
+	var buf bytes.Buffer
+	w := ipc.NewWriter(&buf, ipc.WithSchema(schema))
+	if e := writeErrorBatch(w, schema, err, "srv", "req", false); e != nil {
+		t.Fatal(e)
+	}
+	w.Close()
+	r, e := ipc.NewReader(bytes.NewReader(buf.Bytes()))
+	if e != nil {
+		t.Fatal(e)
+	}
+	defer r.Release()
+	if !r.Next() {
+		t.Fatal("no exception batch written")
+	}
+	md := r.RecordBatch().(arrow.RecordBatchWithMetadata).Metadata()
+	if i := md.FindKey(MetaErrorKind); i >= 0 {
+		kind, present = md.Values()[i], true
+	}
+	extra, _ := md.GetValue(MetaLogExtra)
+	var d errorExtra
+	json.Unmarshal([]byte(extra), &d)
+	if msg, _ := md.GetValue(MetaLogMessage); msg != err.Error() {
+		t.Errorf("%T: message on the wire %q, want %q", err, msg, err.Error())
+	}
+	return kind, present, d.ExceptionType
+}
 
 func TestVerifReplay(t *testing.T) {
 	for _, e := range []error{
@@ -24,6 +58,26 @@ func TestVerifReplay(t *testing.T) {
 		}
 		if extra.ExceptionType != "RuntimeError" {
 			t.Errorf("error %T reached the wire as exception_type %q, want RuntimeError", e, extra.ExceptionType)
+		}
+	}
+	for _, c := range []struct {
+		err           error
+		kind, excType string
+	}{
+		{&RpcError{Type: "ValueError", Message: "m", Kind: "custom_kind"}, "custom_kind", "ValueError"},
+		{&RpcError{Type: "ValueError", Message: "m"}, "", "ValueError"},
+		{&ProtocolVersionError{Message: "m"}, "protocol_version_mismatch", "ProtocolVersionError"},
+		{&SessionLostError{}, "session_lost", "SessionLostError"},
+		{&ServerDrainingError{}, "server_draining", "ServerDrainingError"},
+		{&MethodNotImplementedError{}, "MethodNotImplementedError", "AttributeError"},
+		{errors.New("plain"), "", "RuntimeError"},
+	} {
+		kind, present, exc := c05Kind(t, c.err)
+		if kind != c.kind || present != (c.kind != "") {
+			t.Errorf("%T: error_kind on the wire %q (present=%v), want %q", c.err, kind, present, c.kind)
+		}
+		if exc != c.excType {
+			t.Errorf("%T: exception type %q, want %q", c.err, exc, c.excType)
 		}
 	}
 }
